@@ -64,6 +64,11 @@ def mgmt_alphabet(dom=False, with_rbac=True, with_unknown=True):
     al.append(RF("p", "p", 0, []))
     al.append(RF("g", "g", 0, ["alice"]))
     al.append(RF("g", "g", 1, ["admin"]))
+    # wildcard first, then a value that also occurs in an EARLIER column of other rules
+    # (a filter compared against shifted columns would pick those instead)
+    al.append(RF("g", "g", 0, ["", "alice"] + (["d1"] if dom else [])))
+    al.append(RF("g", "g", 0, ["", "admin"]))
+    al.append(RF("p", "p", 1, ["", "read"] if not dom else ["", "", "read"]))
     al.append("CL")
     if with_unknown:
         al.append(A("p", "p9", pr[0]))
@@ -133,7 +138,8 @@ def multi_alphabet():
     for gk, rules in (("g", MG), ("g2", MG2)):
         for r in rules:
             al += [A("g", gk, r), R("g", gk, r)]
-        al += [AM("g", gk, rules[:2]), RM("g", gk, rules[:2]), RF("g", gk, 1, ["ops"]), RF("g", gk, 0, ["ops"])]
+        al += [AM("g", gk, rules[:2]), RM("g", gk, rules[:2]), RF("g", gk, 1, ["ops"]), RF("g", gk, 0, ["ops"]),
+               RF("g", gk, 0, ["", "ops"])]
     al += ["dra:ops", "du:ops", "du:alice", "dp:%s" % enc_rule(["data1", "read"]), "dpsf:ops", "CL"]
     return al
 
@@ -151,3 +157,24 @@ def multi_lines(mem=True):
 
 def multi_observe():
     return ["?ga:p", "?ga:g", Q_e(["alice", "data1", "read"]), Q_e(["bob", "data1", "read"]), Q_e(["alice", "data2", "read"])]
+
+
+def rand_rf(rnd, dom=False):
+    """a random filtered removal: any start index, wildcards anywhere, values drawn from the WHOLE
+    universe (so a value may sit in another column than the one the filter names)"""
+    pool = SUBS + OBJS + ROLES + ["read", "allow", "deny", "d1", "admin"]
+    if rnd.random() < 0.5:
+        sec, pt, width = "p", "p", (5 if dom else 4)
+    else:
+        sec, pt, width = "g", "g", (3 if dom else 2)
+    idx = rnd.randint(0, width - 1)
+    n = rnd.randint(1, width - idx)
+    vals = [("" if rnd.random() < 0.4 else rnd.choice(pool)) for _ in range(n)]
+    return RF(sec, pt, idx, vals)
+
+
+def pick_op(rnd, al, dom=False):
+    """a step of a random history: mostly from the fixed alphabet, sometimes a random filtered removal"""
+    if rnd.random() < 0.15:
+        return rand_rf(rnd, dom)
+    return rnd.choice(al)
